@@ -3,7 +3,7 @@
 # quick checks against it (CR_REPO); any VIOLATION is a false alarm.
 D="$1"; shift
 PROPS="${*:-C01 C02 C03 C04 C05 C06 C07 C08 C09 C10 C11 C12 C13 C14 C15 C16 C17}"
-W=/tmp/evalrepo
+W="${EVALREPO:-/tmp/evalrepo}"
 cd $W && git checkout -q -- . && git apply "$D" || { echo "patch does not apply"; exit 2; }
 echo "tests: $(/venv/bin/python -m pytest -q -p no:cacheprovider 2>&1 | tail -1)"
 cd /verif
